@@ -86,6 +86,23 @@ def _message_case(pieces, ti, tj, short):
     # decorated output: codes only where a style applies; the same formatter keeps no state between balanced messages
     if a.format("x") != "x":
         return False
+    # under indentation the decorated and the plain output still show the same text: every non-empty LINE OF TEXT is indented, on both
+    want = "".join((("   " + l) if l else l) + "\n" for l in expect.split("\n"))
+    shown = []
+    for fmt in (a, p):
+        st = BufferedOutputStream()
+        o = Output(st, fmt)
+        with o.indent(3):
+            o.write_line(msg)
+        shown.append(SGR.sub("", st.fetch()))
+        if [l.rstrip(" ") for l in shown[-1].split("\n")] != [l.rstrip(" ") for l in want.split("\n")]:
+            return False              # (a line that holds nothing but tags may come out as blanks: invisible)
+    if shown[0] != shown[1]:
+        return False                  # ... but the decorated and the plain output agree character by character
+    # a style added to ONE formatter is unknown to every other formatter: there the tag stays text
+    for other in (PlainFormatter(), AnsiFormatter(forced=True)):
+        if other.format("<late>q</late>") != "<late>q</late>" or other.remove_format("<late>q</late>") != "<late>q</late>":
+            return False
     return True
 
 
